@@ -11,7 +11,7 @@ jobs = [(k, d) for k in ('seeded', 'benign') for d in sorted(os.listdir(os.path.
 def one(j):
     kind, d = j
     return j, bcheck.run(os.path.join(VERIF, kind, d), ALL)
-with ThreadPoolExecutor(max_workers=3) as ex:
+with ThreadPoolExecutor(max_workers=4) as ex:
     for (kind, d), res in ex.map(one, jobs):
         mp = os.path.join(VERIF, kind, d, 'meta.json')
         meta = json.load(open(mp))
